@@ -36,6 +36,11 @@
 #include <string_view>
 #include <sys/mman.h>
 
+#ifndef VF_UNSAN
+#define VF_UNSAN 0  // 1: unsanitised release unit. A to_chars_static call whose capacity-sized fenced to_chars call
+                    // failed would run into its compiled-out assertion (__builtin_unreachable): undefined behaviour
+                    // that no handler can contain, so it is not executed there (the sanitised units report it)
+#endif
 #ifndef VF_PROP
 #define VF_PROP 13
 #endif
@@ -832,7 +837,7 @@ struct HangModel {
 
 // the fixed-capacity variants for the value currently set; ref = text of to_chars with a
 // capacity-sized buffer (valid if have_ref)
-static void static_variants(Ops const& P, Subject const& s, bool safe, bool have_ref, std::string const& ref, std::string const& idbase)
+static void static_variants(Ops const& P, Subject const& s, bool safe, bool have_ref, std::string const& ref, std::string const& idbase, bool have_any = false, std::string const& ref_any = std::string())
 {
     struct V {
         const char* nm;
@@ -888,7 +893,12 @@ static void static_variants(Ops const& P, Subject const& s, bool safe, bool have
         vf::outcome(std::string("ok_") + v.nm);
 #else
         if (!o.ok()) {
-            vf::outcome("unsuccessful_call_out_of_scope");
+            if (have_any) {
+                std::string os = short_outcome(o);
+                vf::outcome("static_call_fails");
+                vf::violation("static_call_fails/" + os + "/" + reg, id, id + ": " + os + " although to_chars with an adequate buffer prints " + show(ref_any));
+            } else
+                vf::outcome("unsuccessful_call_out_of_scope");
             continue;
         }
         if (v.which == 0) text.assign(so.bytes, size_t(so.length > 0 && so.length < 500 ? so.length : 0));
@@ -949,8 +959,8 @@ static void run_program(Ops const& P, std::vector<Big> const& values, bool full,
                 // 1st, 4th, 16th, 64th ... predicted value of this program in this worker
                 sample = (hm.npred & (hm.npred - 1)) == 0 && (__builtin_ctzll(hm.npred) % 2) == 0;
             }
-            bool cap_safe = true, have_ref = false;
-            std::string ref;
+            bool cap_safe = true, have_ref = false, have_any = false;
+            std::string ref, ref_any;  // ref_any: text of the successful call with the longest buffer
             std::string const idb = s.idv + (P.scaled ? "" : ",base=" + std::to_string(base));
             for (int len = 0; len <= maxlen; ++len) {
                 if (vf::replaying() && !vf::case_selected(mkid(idb, len))) continue;
@@ -968,8 +978,12 @@ static void run_program(Ops const& P, std::vector<Big> const& values, bool full,
                 CallRes r = guarded(len, [&](char* f, char* l) { return P.tc(f, l, base); });
                 vf::g.hang_ticks = saved_ticks;
                 if (probe) hm.state = r.o.kind == vf::HANG ? 1 : -1;
+                if (r.success() && r.clean()) {
+                    have_any = true;
+                    ref_any = r.text;
+                }
                 if (len == P.static_cap) {
-                    cap_safe = r.clean();
+                    cap_safe = r.clean() && (!VF_UNSAN || r.success());
                     if (r.success()) {
                         have_ref = true;
                         ref = r.text;
@@ -995,11 +1009,14 @@ static void run_program(Ops const& P, std::vector<Big> const& values, bool full,
                 if (vf::replaying()) {
                     // establish the reference for a replayed static case
                     CallRes r = guarded(P.static_cap, [&](char* f, char* l) { return P.tc(f, l, base); });
-                    cap_safe = r.clean();
+                    cap_safe = r.clean() && (!VF_UNSAN || r.success());
                     have_ref = r.success();
                     ref = r.text;
+                    CallRes r2 = guarded(maxlen, [&](char* f, char* l) { return P.tc(f, l, base); });
+                    have_any = r2.success() && r2.clean();
+                    ref_any = r2.text;
                 }
-                static_variants(P, s, cap_safe, have_ref, ref, idb);
+                static_variants(P, s, cap_safe, have_ref, ref, idb, have_any, ref_any);
             }
         }
     }
@@ -1103,7 +1120,7 @@ template<class T, int Base>
         std::string reg = std::string("to_chars_static/integer/base=") + std::to_string(Base) + (lowest ? "/lowest" : (int(num.size()) > cap ? "/numeral_longer_than_capacity" : "/numeral_fits_capacity"));
         // the same call on a fenced buffer of the same size first
         CallRes r = guarded(cap, [&](char* f, char* l) { return P.tc(f, l, Base); });
-        if (!r.clean()) {
+        if (!r.clean() || (VF_UNSAN && !r.success())) {
             vf::outcome("static_not_run_unsafe");
             continue;
         }
@@ -1128,7 +1145,11 @@ template<class T, int Base>
         vf::outcome(v.neg ? "ok_static_negative" : "ok_static_nonnegative");
 #else
         if (!o.ok()) {
-            vf::outcome("unsuccessful_call_out_of_scope");
+            // to_chars with an adequate buffer prints the numeral (checked by the to_chars programs); a fixed-capacity call
+            // that traps or aborts instead does not "print the same text"
+            std::string os = short_outcome(o);
+            vf::outcome("static_call_fails");
+            vf::violation("static_call_fails/" + os + "/" + reg, id, id + ": " + os + " although the numeral " + show(num) + " exists");
             continue;
         }
         if (text != num) {
